@@ -623,6 +623,12 @@ class _Norm(ast.NodeTransformer):
             _inline_plain_aliases(node)
         self.generic_visit(node)
         node.body = self._tail_form(node.body, ast.Return) or [ast.copy_location(ast.Pass(), node)]
+        # N13 at the end of a function: `if k in d: return d[k]` and falling off the end (None) is `return d.get(k)`
+        last = node.body[-1]
+        if isinstance(last, ast.If) and not last.orelse and len(last.body) == 1 and isinstance(last.body[0], ast.Return) and last.body[0].value is not None:
+            g = _get_form(last.test, last.body[0].value, ast.Constant(value=None))
+            if g is not None:
+                node.body[-1] = ast.copy_location(ast.Return(value=g), last)
         self.fn_stack.pop()
         return node
     visit_AsyncFunctionDef = visit_FunctionDef
